@@ -55,7 +55,7 @@ def _shard(args):
 # (keywords followed directly by an opener / quote / tab / continuation, closers followed directly by keywords;
 # identifiers that begin with keywords), 300 + v = wrapbreak (redundant parentheses broken over lines) then kwadj
 WIDE_QUICK = (100, 202, 300, 302)
-WIDE_THOROUGH = (100, 101, 103, 104, 200, 202, 204, 208, 300, 301, 302)
+WIDE_THOROUGH = (100, 101, 103, 200, 202, 208, 300, 302)
 
 
 def trace_specs(ctx, what, rounds, base=0):
